@@ -95,6 +95,13 @@ CHECKS = {
             'down-sampling (exactly n rows per class drawn from that class, n > min count raises).',
             'Classes with a single row are not generated for categorical noise (observed ValueError, outside the statement); k-means labels: shape/range only.',
             'DESIGN.md §3 C20'),
+    'C10': ('Hypothesis frames over a collision-prone value pool: iff-partition equality + naming/count validity + metamorphic score equality with explicit tuples',
+            'Exploration: generated frames whose cells are prefixes/suffixes of one another, empty strings, unicode variants and '
+            'separator-like strings, orders 2-4 and caps; every appended column must be named by an order-k combination joined with " AND ", '
+            'the number of appended columns is min(cap, C(k,order)), two rows share an interaction value iff they agree on every constituent, '
+            'original columns are untouched, and scores through mixed_rank_graph equal those of an explicit injective tuple encoding.',
+            '64-bit hash collisions are ignored (probability < 1e-12 per run). Pairs scored under the self-pair rule in one frame only are excluded.',
+            'DESIGN.md §3 C10'),
 }
 
 NOT_YET = 'check not built yet in this commit (work in progress; planned in DESIGN.md §3)'
